@@ -1,8 +1,10 @@
 import GeoVerif.Driver.Concat
+import GeoVerif.Driver.Geom
 open Lean GeoVerif.Driver
 
 structure DSt where
   concat : ConcatD.St := []
+  geom : GeomD.St := GeomD.init
 
 def stepLine (st : DSt) (line : String) : DSt × String :=
   match Json.parse line with
@@ -10,6 +12,7 @@ def stepLine (st : DSt) (line : String) : DSt × String :=
   | .ok j =>
     match jstr j "m" with
     | "concat" => let (s, o) := ConcatD.handle st.concat j; ({ st with concat := s }, o.compress)
+    | "geom" => let (s, o) := GeomD.handle st.geom j; ({ st with geom := s }, o.compress)
     | _ => (st, "\"bad-model\"")
 
 partial def loop (h : IO.FS.Stream) (out : IO.FS.Stream) (st : DSt) : IO Unit := do
